@@ -65,6 +65,7 @@ RULE = (
 )
 ENUM_RULE = (
     "(1) stall point in {none,pool,dns,connect,send_body,status,header,hdr_body,body,chunk_size,final_chunk,ws_close} "
+    "(and ws_close_send: the peer stops reading and the close frame itself waits for a write-paused transport; no timeout covers it) "
     "x timeout in {none, total/connect/sock_connect/sock_read/ws_close x {1.5 s, 7.25 s} (thorough: also 0.3 s and "
     "5.0 s, ceil threshold 1 and 5)} x bystander layout; (2) stall point x {none, every covering timeout kind} x 7 "
     "bystander layouts x trace hooks on/off x body kind: cancel before every step k < K of the calling task; (2b) "
@@ -112,6 +113,13 @@ RESP_POINTS = ("status", "header", "hdr_body", "body", "chunk_size", "final_chun
 # samples it last.
 TLS_POINT = "tls"
 ALL_POINTS = STALL_POINTS + [TLS_POINT]
+# A WebSocket close whose close frame cannot be SENT: the peer has stopped reading, the client transport is
+# write-paused, and so much was sent before that the frame writer waits for the transport to drain with the
+# close frame (the first await of ws.close(); "ws_close" is the second one, the wait for the peer's close
+# frame).  No timeout kind of the statement covers it (ws_close is documented as the wait for the closing
+# handshake and is judged at "ws_close" only): only cancellation and its residue are judged here.  Kept out
+# of STALL_POINTS / ALL_POINTS so that the seeded generator's first draw and `total` keep their meaning.
+WS_SEND_POINT = "ws_close_send"
 TIMEOUT_KINDS = ["total", "connect", "sock_connect", "sock_read", "ws_close"]
 
 # ------------------------------------------------------------------ reference model
@@ -179,6 +187,9 @@ def oracle_selftest():
     assert fr == b"\x81\x03abc"
     msgs, used = ws_parse(bytearray(b"\x81\x83\x01\x02\x03\x04" + bytes([0x61 ^ 1, 0x62 ^ 2, 0x63 ^ 3])))
     assert msgs == [(1, b"abc")] and used == 9
+    assert not any(covers(k, WS_SEND_POINT) for k in TIMEOUT_KINDS) and WS_SEND_POINT not in ALL_POINTS
+    big = bytes([0x82, 0xFE, 0x01, 0x00, 1, 2, 3, 4]) + b"z" * 256
+    assert ws_parse(bytearray(big + b"\x88\x80\x00\x00\x00\x00")) == ([(2, b""), (8, b"")], len(big) + 6)
 
 
 # ------------------------------------------------------------------ scripted server
@@ -284,8 +295,8 @@ def ws_parse(buf):
             q += 4
         if len(buf) - q < n:
             break
-        data = bytes(buf[q:q + n])
-        if masked:
+        data = bytes(buf[q:q + n]) if op != 2 else b""  # (binary frames are ballast: dropped unread)
+        if masked and op != 2:
             data = bytes(b ^ mask[i & 3] for i, b in enumerate(data))
         out.append((op, data))
         p = q + n
@@ -443,6 +454,14 @@ class Server:
         for op, data in msgs:
             if op == 1:
                 conn.send(ws_frame(1, b"echo:" + data))
+                if self.point == WS_SEND_POINT and not conn.held:
+                    # the peer answers the first message and then stops reading
+                    conn.held = True
+                    self.stall_reached, self.stall_t = True, self.loop.time()
+                    self.loop.faults["stall_" + WS_SEND_POINT] += 1
+                    self.net.hold(conn.transport.inp)
+                    if self.stall.get("dur"):
+                        self.loop.sim_call_later(self.stall["dur"], self.net.release, conn.transport.inp)
             elif op == 9:
                 conn.send(ws_frame(10, data))
             elif op == 8:
@@ -738,12 +757,39 @@ class Exec:
                 await ws.send_str("m0")
                 msg = await ws.receive()
                 rec["ws_echo"] = (msg.type.name, msg.data)
+                if scn.get("ws_fill"):
+                    await self._ws_fill(ws, scn["ws_fill"])
             finally:
                 rec["t_close"] = loop.time()
-                closed = await ws.close()
+                if scn.get("ws_fill"):
+                    closed = await ws.close(message=b"r" * scn["ws_fill"]["reason"])
+                else:
+                    closed = await ws.close()
                 rec["t_closed"] = loop.time()
         exc = ws.exception()
         return ("ws", closed, ws.close_code, type(exc).__name__ if exc is not None else None)
+
+    async def _ws_fill(self, ws, fill):
+        """Outbound ballast before the close: binary frames (the peer has stopped reading, so the transport
+        pauses writing) up to `off` bytes below the point at which the frame writer next waits for the
+        transport to drain, so that the close frame (2 + 4 + 2 + reason bytes) is the write that has to wait.
+        The writer's own counter and limit are read (white box): the workload must hit a window of a hundred
+        bytes in 256 KiB.  No send here waits itself: the counter stays at or below the limit."""
+        wr, rec = ws._writer, self.rec
+        limit, S = getattr(wr, "_limit", None), fill["chunk"]
+        if limit is None or not hasattr(wr, "_output_size"):
+            self.probes["ws_fill_writer_has_no_counter"] += 1
+            return
+        target = limit - fill["off"]
+        for _ in range(400):
+            r = target - wr._output_size
+            if r < 134:
+                break
+            await ws.send_bytes(b"f" * (S if r > 60000 else r - 8))
+            if r <= 60000:
+                break
+        rec["ws_fill_left"] = target - wr._output_size
+        rec["ws_fill_paused"] = bool(getattr(wr.protocol, "_paused", False))
 
     async def _simple(self, host, path):
         scheme = self.v_scheme if host == V_HOST else "http"
@@ -1079,6 +1125,11 @@ class Exec:
             pr["tls_handshakes"] += len(self.handshakes)
         if rec.get("waiters_seen"):
             pr["request_queued_for_pool_slot"] += 1
+        if "ws_fill_left" in rec:
+            pr["ws_fill_on_target_and_write_paused" if rec["ws_fill_left"] == 0 and rec.get("ws_fill_paused")
+               else "ws_fill_missed"] += 1
+        if (rec.get("cancel_at") or "").startswith(("writer.py:", "base_protocol.py:")) and self.point == WS_SEND_POINT:
+            pr["cancel_while_close_frame_waits_for_drain"] += 1
         if rec.get("dns_shared"):
             pr["dns_waiter_joined_inflight_lookup"] += 1
         if any(getattr(c, "c18_paused", 0) for c in self.ctrs):
@@ -1492,9 +1543,11 @@ def _for_stall(scn, point, dur=None):
         else:
             scn["body"] = dict(scn["body"], size=max(scn["body"]["size"], 200_000))
         scn["seg_c2s"] = "mss"
-    if point == "ws_close":
+    if point in ("ws_close", WS_SEND_POINT):
         scn["op"] = "ws"
         scn["body"] = {"kind": "none"}
+    if point == WS_SEND_POINT and not scn.get("ws_fill"):
+        scn["ws_fill"] = {"chunk": 50_000, "off": 0, "reason": 100}
     if point == "pool":
         # every slot is held by a bystander whose (slow, not stalled) peer answers after HOLD_DELAY;
         # bystanders that start later queue up behind the victim
@@ -1570,6 +1623,7 @@ def enumerate_cases(tier, seed):
                     yield _for_stall(scn, point)
     # (6a: cheap cases without a cancel sweep, run together with the grid above)
     yield from _eof_cases(tier, "bound")
+    yield from _ws_send_cases(tier, "bound")
     # 2. per stall point x {no timeout, each covering timeout kind}: cancel before every step of the
     #    calling task (the un-cancelled execution of the same scenario gives the steps)
     for point in points:
@@ -1611,6 +1665,7 @@ def enumerate_cases(tier, seed):
             scn["lat"] = 1
             scn["cancel"] = {"k": "all"}
             yield scn
+    yield from _ws_send_cases(tier, "cancel")
     # 3. fault-free exchange, total timeout placed on every instant at which the calling task runs
     for body in ("none", "bytes", "stream"):
         for lay in ("none", "same_host_second", "same_host_before"):
@@ -1638,6 +1693,40 @@ def enumerate_cases(tier, seed):
                 yield _for_stall(scn, point)
     yield from _tls_cases(tier)
     yield from _eof_cases(tier, "cancel")
+
+
+def _ws_send_cases(tier, part):
+    """2c. WebSocket close whose close frame has to wait for a write-paused transport (peer stopped reading):
+    blocked until the horizon (where it is cancelled) with and without ws_close, or released after a while
+    ("bound", cheap); cancel before every step of the calling task ("cancel")."""
+    quick = tier == "quick"
+    if part == "bound":
+        for to in (None, {"kind": "ws_close", "value": 1.5}):
+            for fill in ({"chunk": 50_000, "off": 0, "reason": 100}, {"chunk": 8_000, "off": 7, "reason": 0},
+                         {"chunk": 30_000, "off": 130, "reason": 123}):
+                for dur in (None, 4.0):
+                    scn = _layout(_base_scn(), "none")
+                    scn["timeout"] = dict(to) if to else None
+                    scn["limit"] = 1
+                    scn["ws_fill"] = dict(fill)
+                    yield _for_stall(scn, WS_SEND_POINT, dur)
+        return
+    for lay in (["none", "same_host_before", "two"] if quick else list(BY_LAYOUTS)):
+        for traces in (False, True):
+            for to in (None, {"kind": "ws_close", "value": 1.5}):
+                for fill in ({"chunk": 50_000, "off": 0, "reason": 100}, {"chunk": 8_000, "off": 7, "reason": 0},
+                             {"chunk": 30_000, "off": 130, "reason": 123}):
+                    if quick and (traces or to) and fill["off"] != 0:
+                        continue
+                    scn = _layout(_base_scn(), lay)
+                    scn["timeout"] = dict(to) if to else None
+                    scn["traces"] = traces
+                    scn["lat"] = 1
+                    scn["limit"] = 1 if lay == "none" else scn["limit"]
+                    scn["ws_fill"] = dict(fill)
+                    scn = _for_stall(scn, WS_SEND_POINT)
+                    scn["cancel"] = {"k": "all"}
+                    yield scn
 
 
 def _eof_cases(tier, part=None):
@@ -1800,6 +1889,19 @@ def gen(rng, tier, index):
     r, hdr = rng.random(), rng.choice(EOF_HDRS)
     if r < 0.12 and scn["op"] == "http" and (scn.get("stall") or {}).get("point") != "chunk_size":
         scn = _eof(scn, hdr)
+    # WebSocket close whose close frame has to wait for the transport to drain (drawn last): the peer stops
+    # reading after the first echo, the caller sends ballast up to `off` bytes below the writer's drain point
+    r = rng.random()
+    reason = rng.choice([0, 0, 20, 100, 123])
+    fill = {"chunk": rng.choice([8_000, 30_000, 50_000]), "off": rng.randrange(0, 8 + reason), "reason": reason}
+    value, r2, r3 = rng.choice([0.3, 1.5, 5.0, 7.25]), rng.random(), rng.random()
+    if r < 0.07 and (scn.get("stall") or {}).get("point") != TLS_POINT:
+        scn["resp"] = dict(scn["resp"], framing="cl") if scn["resp"].get("framing") == "eof" else scn["resp"]
+        scn["resp"].pop("eof_hdr", None)
+        scn["read"] = {"mode": "read"}
+        scn["timeout"] = {"kind": "ws_close", "value": value} if r2 < 0.4 else None
+        scn["ws_fill"] = fill
+        scn = _for_stall(scn, WS_SEND_POINT, rng.choice([0.6, value + 3.0]) if r3 < 0.25 else None)
     return scn
 
 
@@ -1844,6 +1946,12 @@ def shrink(scn):
     st = scn.get("stall")
     if st and st.get("dur"):
         yield dict(scn, stall={"point": st["point"], "dur": None})
+    wf = scn.get("ws_fill")
+    if wf:
+        if wf["off"]:
+            yield dict(scn, ws_fill=dict(wf, off=0))
+        if wf["chunk"] != 50_000:
+            yield dict(scn, ws_fill=dict(wf, chunk=50_000))
     if (scn.get("read") or {}).get("mode") == "slow":
         yield dict(scn, read={"mode": "read"})
     b = scn.get("body") or {"kind": "none"}
